@@ -370,7 +370,7 @@ pub fn state_fp(cfg: &Cfg, s: &Snapshot, now: Instant, m: &Model) -> u128 {
     // what decides whether the lower-bound oracle applies
     c.u64(match cfg.cap {
         None => 0,
-        Some(cap) => m.total_w.min(cap + 1),
+        Some(cap) => m.total_w.min(cap.saturating_add(1)),
     });
     fingerprint(&c.0)
 }
@@ -1363,11 +1363,25 @@ pub fn step(cfg: &Cfg, sut: &mut Sut, m: &mut Model, pre: &Snapshot, op: Op, has
                         || pre.write_ops.iter().any(|o| matches!(o, OpSnap::Upsert { entry, old_weight: 0, .. } if entry.info_addr == x.info_addr));
                     joins_queue && dead(x.key as u8).is_none() && m.keys[x.key as usize].has && !post_phys.contains_key(&(x.key as u8))
                 });
-            let blocked = ahead_live(&post.probation) || (m.ttl_dead(cfg, k) && ahead_live(&post.write_order)) || live_evicted_in_this_step;
+            // which scan could have purged it? the access-order scan tests the idle
+            // deadline and the invalidate_all watermark, the write-order scan (it exists
+            // only with a ttl) the ttl deadline and the watermark
+            let km = &m.keys[k as usize];
+            let inval = !km.has || km.inval;
+            let ao_can = inval || m.tti_dead(cfg, k, true);
+            let wo_can = cfg.ttl_ms().is_some() && (inval || m.ttl_dead(cfg, k));
+            let blocked_ao = ahead_live(&post.probation) || live_evicted_in_this_step;
+            let blocked_wo = ahead_live(&post.write_order);
             let site = if same_reading {
                 "read-at-the-reading-of-invalidate_all"
-            } else if !u && blocked {
+            } else if !u && ao_can && blocked_ao && (!wo_can || blocked_wo) {
+                // (the access-order queue is not sorted by last_accessed when a read was
+                // applied before its entry's admission: known finding)
                 "behind-live-entry-in-purge-queue"
+            } else if !u && !ao_can && wo_can && blocked_wo {
+                // the write-order queue IS sorted by last_modified in every sequential
+                // history of the unchanged code: not a known site
+                "behind-live-entry-in-write-order-queue"
             } else {
                 "other"
             };
